@@ -300,6 +300,10 @@ def part_b(case, v, log, stats):
         except Exception as e:  # pylint: disable=broad-except
           return ('exc', type(e).__name__)
       apis['bind'] = attempt(lambda: gin.bind_parameter(q + '.x', val))
+      # (the same value again, through a parse that tolerates UNKNOWN names:
+      # an ambiguous name is not unknown)
+      apis['parse_skip_unknown'] = attempt(lambda: gin.parse_config(
+          '%s.x = %r' % (q, val), skip_unknown=True))
       apis['query'] = attempt(lambda: gin.query_parameter(q + '.x'))
       apis['get_bindings'] = attempt(lambda: gin.get_bindings(q))
       apis['get_configurable'] = attempt(lambda: gin.get_configurable(q))
@@ -374,6 +378,8 @@ def part_b(case, v, log, stats):
       else:
         kind = 'ambiguous' if want else 'unknown'
         for api, (st, res) in sorted(apis.items()):
+          if api == 'parse_skip_unknown' and kind == 'unknown':
+            continue   # skipped, as asked
           if st == 'ok':
             v('C08.%s_rejected' % kind, [api],
               'after registering %r: %s with %s spelling %r (matches %r) '
